@@ -203,16 +203,36 @@ Definition is_zero (n : num) : bool := match num_dy n with Some d => comparison_
 Definition pow_unit (op : binop) (a b : num) : bool :=
   match op with OPow => is_zero b || is_one a | _ => false end.
 
-Definition exact_op_opt (op : binop) (a b : num) : option num :=
+(* Python converts an int that meets a float to float first (round to nearest even): (2^53 + 1) - 1.0 is
+   2^53 - 1.0, not 2^53 *)
+Definition num_promote (a b : num) : num * num :=
+  match a, b with
+  | NInt x, NFlt _ => (NFlt (round53 x), b)
+  | NFlt _, NInt y => (a, NFlt (round53 y))
+  | _, _ => (a, b)
+  end.
+
+(* float // float as CPython / NumPy compute it (fmod, then (vx - mod) / wx in floating point, then floor) is the
+   floor of the exact quotient when both operands are integers below 2^53 in units of their common 2^e: every
+   intermediate value is then exact.  Beyond that it need not be (1e16 // 1.5 is 6666666666666667.0): left to
+   the IEEE instance (Spec/ArithIeee.v). *)
+Definition floordiv_exact (x y : Z * Z) : bool :=
+  let '(A, B, _) := dy_align x y in (Z.abs A <? 2 ^ 53) && (Z.abs B <? 2 ^ 53).
+Definition is_div_op (op : binop) : bool := match op with OTruediv | OFloordiv | OMod => true | _ => false end.
+
+Definition exact_op_opt (op : binop) (a0 b0 : num) : option num :=
+  let '(a, b) := num_promote a0 b0 in
   let int_result := num_is_int a && num_is_int b &&
                     match op with OTruediv => false | OPow => (0 <=? num_int b) | _ => true end in
-  if pow_unit op a b then Some (if int_result then NInt 1 else NFlt (FFin false 1 0)) else
-  if num_is_nan a || num_is_nan b then Some (NFlt FNan) else
+  if pow_unit op a0 b0 then Some (if int_result then NInt 1 else NFlt (FFin false 1 0)) else
+  if is_div_op op && is_zero b0 then None else         (* Python raises also for NaN / 0 *)
+  if num_is_nan a0 || num_is_nan b0 then Some (NFlt FNan) else
   match num_dy a, num_dy b with
   | Some x, Some y =>
       match dy_op op x y with
       | Some (m, e) =>
           if int_result then match dy_int (m, e) with Some z => Some (NInt z) | None => None end
+          else if match op with OFloordiv => negb (floordiv_exact x y) | _ => false end then None
           else Some (NFlt (fl_of_dy m e))
       | None => None
       end
